@@ -12,6 +12,7 @@ package props
 // execution's observation is compared with a reference model computed from the text alone.
 
 import (
+	"runtime"
 	"bytes"
 	"encoding/json"
 	"errors"
@@ -64,6 +65,7 @@ type graphCase struct {
 	Faults  map[string]string `json:"faults,omitempty"` // canonical file -> fault kind (C06)
 	Label   string            `json:"label"`
 	Extra   map[string]string `json:"extra,omitempty"` // explicit file contents (foreign cases)
+	Procs   int               `json:"procs,omitempty"` // GOMAXPROCS during the exploration (0 = the worker's own)
 }
 
 var fileLetters = []string{"a", "b", "c", "d", "e", "f"}
@@ -314,6 +316,18 @@ func (c05) Cases(tier string, emit func(string, interface{})) {
 	for _, gc := range c05Graphs(tier) {
 		emit("graph", gc)
 	}
+	// wide fans under GOMAXPROCS 1..4: logic that sizes its concurrency by the processor count must not
+	// change the result (the scheduler runs one thread at a time whatever the value)
+	for _, sh := range []struct {
+		name string
+		g    [][]int
+	}{{"fan3", namedShapes4["fan3"]}, {"fan4", [][]int{{1, 2, 3, 4}, {}, {}, {}, {}}}, {"fan3-cross", namedShapes4["fan3-cross"]}, {"star-back", namedShapes5["star-back"]}} {
+		for procs := 1; procs <= 4; procs++ {
+			gc := mkGraphCase(sh.g, 0, plainSpell, "a.sysl", fmt.Sprintf("%s procs=%d", sh.name, procs))
+			gc.Procs = procs
+			emit("graph", gc)
+		}
+	}
 }
 
 func (c05) InitWorker() { logrus.SetOutput(io.Discard) }
@@ -529,7 +543,7 @@ func retrievalBody(gc graphCase, full bool, modOut **sysl.Module) sched.Body {
 }
 
 func graphKey(gc graphCase) string {
-	return fmt.Sprintf("%v|%v|root=%s|limit=%d|faults=%v", gc.Edges, gc.Imports, gc.Root, gc.Limit, gc.Faults)
+	return fmt.Sprintf("%v|%v|root=%s|limit=%d|faults=%v|procs=%d", gc.Edges, gc.Imports, gc.Root, gc.Limit, gc.Faults, gc.Procs)
 }
 
 func (c05) Run(c core.Case) core.Outcome {
@@ -541,6 +555,10 @@ func (c05) Run(c core.Case) core.Outcome {
 	}
 	var gc graphCase
 	_ = json.Unmarshal(c.Data, &gc)
+	if gc.Procs > 0 {
+		old := runtime.GOMAXPROCS(gc.Procs)
+		defer runtime.GOMAXPROCS(old)
+	}
 	var o core.Outcome
 	e := sched.New(retrievalBody(gc, false, nil))
 	e.Prune = true
